@@ -1532,10 +1532,21 @@ SoPlexBase<R>& SoPlexBase<R>::operator=(const SoPlexBase<R>& rhs)
       // transfer the lu solver
       _solver.setBasisSolver(&_slufactor);
 
+#ifdef SOPLEX_WITH_MPFR
+      // the boosted solver is not copied, but it must be wired to the members of this instance as in the constructor
+      _boostedSolver.setOutstream(spxout);
+      _boostedSolver.setBasisSolver(&_boostedSlufactor);
+#endif
+
       // initialize pointers for simplifier, scaler, and starter
       setIntParam(SoPlexBase<R>::SIMPLIFIER, intParam(SoPlexBase<R>::SIMPLIFIER), true);
       setIntParam(SoPlexBase<R>::SCALER, intParam(SoPlexBase<R>::SCALER), true);
       setIntParam(SoPlexBase<R>::STARTER, intParam(SoPlexBase<R>::STARTER), true);
+
+      // the pricer and ratio tester of the boosted solver are not copied with it; select them as the constructor does
+      setIntParam(SoPlexBase<R>::PRICER, intParam(SoPlexBase<R>::PRICER), true);
+      setIntParam(SoPlexBase<R>::RATIOTESTER, intParam(SoPlexBase<R>::RATIOTESTER), true);
+      setIntParam(SoPlexBase<R>::STORE_BASIS_SIMPLEX_FREQ, intParam(SoPlexBase<R>::STORE_BASIS_SIMPLEX_FREQ), true);
 
       // copy real LP if different from the LP in the solver
       if(rhs._realLP != &(rhs._solver))
